@@ -178,6 +178,13 @@ def run(chk, tier):
     out = _absorb(chk, _vh(["replay", "--scen", o("c09_scen.ndjson")]), "vh c09 replay --scen <case>")
     chk.extra["catalogue"] = {"scenarios": len(scen), "accepted": out["accepted"], "rejected": out["rejected"],
                               "panics": out["panics"], "by_class": out["classes"]}
+    # vacuity guard: corrupted traces of a constraint_degree = 1 (linear) system were run for every row class and rejected,
+    # and a corrupted unreferenced public input at proving time was run
+    dc = out.get("deg_classes", {})
+    for rc in ("first", "interior", "last"):
+        if dc.get("d1/cell:%s:expect_rej:rej" % rc, 0) + dc.get("d1/cell:%s:expect_rej:acc" % rc, 0) < 1:
+            raise ToolError("catalogue has no violating %s-row corruption of a constraint_degree = 1 system: %s" % (rc, sorted(dc)))
+    chk.extra["catalogue"]["degree1_corruptions"] = {k: v for k, v in dc.items() if k.startswith("d1/")}
     k = next(i for i, s in enumerate(scen) if s["action"].get("row") == "last" and s["action"].get("col") == 1 and s["expect"] == "accept")
     can = _vh(["replay", "--scen", o("c09_scen.ndjson"), "--flip-expect", k])
     chk.canary("a flipped expectation (wrap-around exempt cell expected to be rejected) is reported by the replay",
@@ -192,7 +199,10 @@ def run(chk, tier):
     # ---- B4: every element of accepted proofs
     tcases = [{"cols": 2, "npi": 2, "deg": 2, "n_bits": 4, "config": R3},
               {"cols": 3, "npi": 0, "deg": 3, "n_bits": 5, "config": STD},
-              {"cols": 2, "npi": 0, "deg": 0, "n_bits": 3, "config": R2}]
+              {"cols": 2, "npi": 0, "deg": 0, "n_bits": 3, "config": R2},
+              # public inputs that no constraint references (context tags): bound by the transcript only
+              {"cols": 2, "npi": 3, "deg": 2, "n_bits": 3, "config": R3},
+              {"cols": 2, "npi": 2, "deg": 1, "n_bits": 3, "config": R2}]
     if thorough:
         tcases += [{"cols": 5, "npi": 2, "deg": 4, "n_bits": 6, "config": {"rate": 2, "cap": 3, "pow": 16, "queries": 28, "nc": 3, "strategy": ["min", None]}},
                    {"cols": 8, "npi": 2, "deg": 1, "n_bits": 7, "config": STD},
@@ -201,6 +211,15 @@ def run(chk, tier):
     out = _absorb(chk, _vh(["tamper", "--cases", o("c09_tamper.ndjson"), "--sample-rounds", 0 if thorough else 4]),
                   "vh c09 tamper --cases <case>", count_traces=False)
     chk.extra["tamper"] = {"proofs": out["extra"]["proofs"], "mutations": out["evaluated"], "rejected": out["rejected"], "panics": out["panics"]}
+    # vacuity guard: every public-input position of a proof with unreferenced public inputs was altered (v+1 / 0 / random)
+    tagged = [p for p in out["extra"]["proofs"] if p.get("unreferenced_pis")]
+    for p in out["extra"]["proofs"]:
+        done = dict((i, n) for i, n in p.get("pi_value_mutations", []))
+        if p.get("npi", 0) and any(done.get(i, 0) < 2 for i in range(p["npi"])):
+            raise ToolError("public-input tamper did not cover every position of %s: %s" % (p["shape"], done))
+    if len(tagged) < 2:
+        raise ToolError("no accepted proof with a public input that no constraint references was tampered")
+    chk.extra["tamper"]["unreferenced_public_inputs"] = [[p["shape"], p["unreferenced_pis"], p["pi_value_mutations"]] for p in tagged]
     common.write_ndjson(o("c09_tamper_one.ndjson"), tcases[:1])
     can = _vh(["tamper", "--cases", o("c09_tamper_one.ndjson"), "--sample-rounds", 2, "--canary"])
     chk.canary("an accepted 'mutation' (the unmodified proof) is reported by the tamper loop",
@@ -217,6 +236,7 @@ def run(chk, tier):
     common.write_ndjson(o("c09_forge.ndjson"), fcases)
     res = common.vh(["forge", "--cases", o("c09_forge.ndjson")], binname=BIN, env=ENV)
     in_sync = True
+    rejected_forgeries = 0
     for f in res:
         chk.evaluations += 1
         obs = f["observed"]
@@ -229,12 +249,20 @@ def run(chk, tier):
                           "(quotient chosen after zeta; recipe: out/c09_forger_report.md)" % f["failing_constraints"],
                           {"violation": f, "how": "vh c09 forge --cases <case>"})
         else:
-            chk.traces += 1
+            rejected_forgeries += 1
+    if in_sync:
+        chk.traces += rejected_forgeries
     chk.nontrivial += len(res)
-    if not in_sync:
-        chk.note_drift("forger: the re-implemented prover transcript no longer equals the verifier's challenges (schedule changed)")
-    chk.canary("forger transcript replica yields the verifier's own alphas and zeta", in_sync)
-    chk.extra["forge"] = {"cases": len(res), "accepted": sum(1 for f in res if f["observed"].get("accepted"))}
+    chk.extra["forge"] = {"cases": len(res), "accepted": sum(1 for f in res if f["observed"].get("accepted")), "forger_skipped": not in_sync}
+    if in_sync:
+        chk.canary("forger transcript replica yields the verifier's own alphas and zeta", True)
+    else:
+        # a changed Fiat-Shamir schedule is implementation drift: the strategy cannot be evaluated in this run
+        chk.note_drift("forger: the re-implemented prover transcript no longer equals the verifier's challenges (schedule changed); "
+                       "strategy omit_quotient_cap skipped")
+        if not chk.violations and not chk.known_seen:
+            # nothing else distinguishes this tree from the pinned one: the replica itself must be broken
+            chk.canary("forger transcript replica yields the verifier's own alphas and zeta", False)
 
 
 def replay(path):
